@@ -136,7 +136,13 @@ theorem skeleton_agrees :
     Gen.Skel.skeleton "Outbound.resumeProducing" = skel_resumeProducing ∧
     Gen.Skel.skeleton "DilatedConnectionProtocol.process_inbound_queue" = skel_process_inbound_queue ∧
     Gen.Skel.skeleton "SubChannel._deliver_queued_data" = skel_deliver_queued_data ∧
-    Gen.Skel.skeleton "Inbound.handle_open" = skel_handle_open := by
+    Gen.Skel.skeleton "Inbound.handle_open" = skel_handle_open ∧
+    Gen.Skel.skeleton "Inbound.handle_data" = skel_handle_data ∧
+    Gen.Skel.skeleton "Inbound.handle_close" = skel_handle_close ∧
+    Gen.Skel.skeleton "SubChannel.signal_dataReceived" = skel_signal_dataReceived ∧
+    Gen.Skel.skeleton "SubChannel.signal_readConnectionLost" = skel_signal_readConnectionLost ∧
+    Gen.Skel.skeleton "SubChannel.pauseProducing" = skel_sub_pauseProducing ∧
+    Gen.Skel.skeleton "SubChannel.resumeProducing" = skel_sub_resumeProducing := by
   decide +kernel
 
 /-- Two structural facts the model relies on, read from the source by the translator: the records
